@@ -76,7 +76,7 @@ func suiteStream(rn *runner, r *rng, tier string) {
 	if tier == "thorough" {
 		for k := 0; k < 6; k++ {
 			bigStreamCase(rn, r.fork(), "longline", 1, 0, []int{7, 64, 1000, 4095, 65536, 1 << 20}[k], "stream")
-			bigStreamCase(rn, r.fork(), "holdall", 3+k, 1+k%4, []int{0, 1 << 20, 4096}[k%3], "stream")
+			bigStreamCase(rn, r.fork(), "holdall", 3+k, 1+k%4, []int{0, 1 << 20, 3 << 20}[k%3], "stream")
 		}
 	}
 	for i := 0; i < n; i++ {
